@@ -162,33 +162,36 @@ theorem readLoop_nil (cap : Nat) (ew : Bool) (sched : List Nat) :
     ∃ sc, readLoop cap ew [] sched = .ok ([], true, [], sc) := by
   cases sched <;> simp [readLoop]
 
-theorem readLoop_data (cap : Nat) (hcap : 0 < cap) (pending : List Byte) (hp : pending ≠ [])
+theorem readLoop_data (cap : Nat) (hcap : 0 < cap) (ew : Bool) (pending : List Byte) (hp : pending ≠ [])
     (sched : List Nat) :
-    ∃ chunk rest sc, readLoop cap false pending sched = .ok (chunk, false, rest, sc)
-      ∧ chunk ≠ [] ∧ chunk ++ rest = pending ∧ chunk.length ≤ cap := by
+    ∃ chunk e rest sc, readLoop cap ew pending sched = .ok (chunk, e, rest, sc)
+      ∧ chunk ≠ [] ∧ chunk ++ rest = pending ∧ chunk.length ≤ cap ∧ (e = true → rest = []) := by
   induction sched with
   | nil =>
     rcases pending with _ | ⟨b, t⟩
     · exact absurd rfl hp
-    · refine ⟨(b :: t).take cap, (b :: t).drop cap, [], ?_, ?_, ?_, ?_⟩
+    · refine ⟨(b :: t).take cap, ew && ((b :: t).drop cap).isEmpty, (b :: t).drop cap, [], ?_, ?_, ?_, ?_, ?_⟩
       · simp [readLoop, Nat.ne_of_gt hcap]
       · cases cap with
         | zero => omega
         | succ n => simp
       · simp
       · simp [List.length_take]; omega
+      · intro h; simp at h; exact List.drop_eq_nil_of_le (by simpa using h.2)
   | cons e es ih =>
     rcases pending with _ | ⟨b, t⟩
     · exact absurd rfl hp
     · by_cases hk : min e cap = 0
-      · obtain ⟨c, r, sc, h1, h2, h3, h4⟩ := ih
-        exact ⟨c, r, sc, by simp [readLoop, hk, h1], h2, h3, h4⟩
-      · refine ⟨(b :: t).take (min e cap), (b :: t).drop (min e cap), es, ?_, ?_, ?_, ?_⟩
+      · obtain ⟨c, e', r, sc, h1, h2, h3, h4, h5⟩ := ih
+        exact ⟨c, e', r, sc, by simp [readLoop, hk, h1], h2, h3, h4, h5⟩
+      · refine ⟨(b :: t).take (min e cap), ew && ((b :: t).drop (min e cap)).isEmpty,
+          (b :: t).drop (min e cap), es, ?_, ?_, ?_, ?_, ?_⟩
         · simp [readLoop, hk]
         · cases hm : min e cap with
           | zero => exact absurd hm hk
           | succ n => simp
         · simp
         · simp [List.length_take]; omega
+        · intro h; simp at h; exact List.drop_eq_nil_of_le (by simpa using h.2)
 
 end ShVerif.L2
